@@ -17,6 +17,9 @@ cursor (`dataPageIndex`, `messageOffset`) and `indexPageIndex`.
   alloc   (queue.alloc, under rwMutex)       cursor arithmetic, page roll-over
   write   (MappedPage.WriteBytes, UNLOCKED)  copy of the message into the data page
   persist (persistMetaOfMessage, under rwMutex) 3 index stores, 1 meta store, publish
+`allocF`/`putF` add the error branch of alloc (the roll-over's AcquirePage fails: the Put
+returns the error and nothing was assigned). `queue.GC` holds no lock across its steps, so in
+the interleaving model it is four events (gcSnap, gcRead, gcTruncData, gcTruncIndex).
 Two semantics are built from these: sequential histories (`Op`, `step`, with a crash after
 any prefix of the store trace of an in-flight Put) and an interleaving model (`Ev`,
 `cstep`) over appender threads, parameterised by `Shape` — whether Put is one critical
@@ -255,6 +258,7 @@ def gc (st : St) : St :=
 inductive PutRes
   | ok (seq : Int)
   | tooLarge
+  | acquireFailed
   deriving DecidableEq, Repr
 
 /-- memory after the first `k` stores of the store trace of a Put that was allocated as `a`:
@@ -269,6 +273,22 @@ def put (st : St) (m : Msg) : St × PutRes :=
   else
     let a := alloc st.mem st.q m.len
     ({ mem := putStores a m (m.len + 4), q := publish a.q }, .ok (a.q.appended + 1))
+
+/-- `queue.alloc` with the outcome of the roll-over `dataPageFct.AcquirePage` as a parameter:
+on an error alloc returns before it assigns any field of the queue (the page id is computed
+into a local, `nextDataPageIndex`). -/
+def allocF (mem : Mem) (q : Q) (len : Nat) (acquireFails : Bool) : Option Alloc :=
+  if q.messageOffset + len > dataPageSize ∧ acquireFails = true then none
+  else some (alloc mem q len)
+
+/-- `queue.Put` during which AcquirePage on the data factory fails (one-shot fault): the
+Put returns the error iff it needed a roll-over; the queue is left as it was. -/
+def putF (st : St) (m : Msg) : St × PutRes :=
+  if m.len > dataPageSize then (st, .tooLarge)
+  else
+    match allocF st.mem st.q m.len true with
+    | none => (st, .acquireFailed)
+    | some _ => put st m
 
 /-- Close, then NewQueue on the same directory (Close only syncs and unmaps) -/
 def reopen (st : St) : St := openQ st.mem
@@ -286,9 +306,11 @@ inductive Op
   | gc
   | reopen
   | crashPut (m : Msg) (k : Nat)
+  | putFail (m : Msg)             -- a Put during which the data factory's AcquirePage fails
 
 def step (st : St) : Op → St
   | .put m => (put st m).1
+  | .putFail m => (putF st m).1
   | .get _ => st
   | .ack s => ack st s
   | .gc => gc st
@@ -322,15 +344,27 @@ inductive Th
   | allocated (m : Msg) (pg off : Nat)
   | written (m : Msg) (pg off : Nat)
 
+/-- the GC caller between the atomic steps of `queue.GC` (none of which holds rwMutex across
+the next): acknowledged sequence read (`AcknowledgedSeq()`); index item of that sequence read
+(`indexPageFct.GetPage` + `ReadUint64` → data page bound); data pages truncated; index pages
+truncated. -/
+inductive GcSt
+  | idle
+  | snapped (a : Int)
+  | bounded (a : Int) (b : Nat)
+  | truncated (a : Int)
+
 structure CSt where
   mem : Mem
   q : Q
   ths : Nat → Th
   busy : Nat            -- number of Puts in flight
+  gc : GcSt := .idle
 
 def CSt.st (σ : CSt) : St := ⟨σ.mem, σ.q⟩
 
-def CSt.init : CSt := { mem := St.init.mem, q := St.init.q, ths := fun _ => .idle, busy := 0 }
+def CSt.init : CSt :=
+  { mem := St.init.mem, q := St.init.q, ths := fun _ => .idle, busy := 0, gc := .idle }
 
 def setTh (ths : Nat → Th) (t : Nat) (x : Th) : Nat → Th := fun t' => if t' = t then x else ths t'
 
@@ -344,29 +378,45 @@ inductive Ev
   | reopen                        -- Close + NewQueue; only with no Put in flight
   | crash                         -- process dies between two atomic steps; NewQueue
   | crashPut (t : Nat) (m : Msg) (k : Nat)  -- idle thread starts Put m, process dies after k stores of it
+  | allocFail (t : Nat) (m : Msg) -- like alloc, but AcquirePage on the data factory fails if it is called
+  | gcSnap                        -- GC: ackSeq := AcknowledgedSeq()
+  | gcRead                        -- GC: index page lookup + read of the acknowledged item's data page id
+  | gcTruncData                   -- GC: dataPageFct.TruncatePages(dataPageID)
+  | gcTruncIndex                  -- GC: indexPageFct.TruncatePages(indexPageID)
 
 inductive Out
   | none
   | ret (s : Int) (m : Msg)       -- a Put of message m returned success; its sequence is s
   | tooLarge
+  | failed                        -- a Put returned the AcquirePage error
   | got (r : GetRes)
+
+/-- thread `t` calls `Put m` -/
+def cstepAlloc (shape : Shape) (σ : CSt) (t : Nat) (m : Msg) : Option (CSt × Out) :=
+  match σ.ths t with
+  | .idle =>
+    if m.len > dataPageSize then some (σ, .tooLarge)
+    else match shape with
+      | .threeStep =>
+        let a := alloc σ.mem σ.q m.len
+        some ({ σ with mem := a.mem, q := a.q, ths := setTh σ.ths t (.allocated m a.pg a.off),
+                       busy := σ.busy + 1 }, .none)
+      | .atomic =>
+        match put σ.st m with
+        | (st', .ok s) => some ({ σ with mem := st'.mem, q := st'.q }, .ret s m)
+        | (_, .tooLarge) => some (σ, .tooLarge)
+        | (_, .acquireFailed) => some (σ, .failed)
+  | _ => none
 
 /-- one atomic step of the interleaving model; `none` = the event is not enabled -/
 def cstep (shape : Shape) (σ : CSt) : Ev → Option (CSt × Out)
-  | .alloc t m =>
-    match σ.ths t with
-    | .idle =>
-      if m.len > dataPageSize then some (σ, .tooLarge)
-      else match shape with
-        | .threeStep =>
-          let a := alloc σ.mem σ.q m.len
-          some ({ mem := a.mem, q := a.q, ths := setTh σ.ths t (.allocated m a.pg a.off),
-                  busy := σ.busy + 1 }, .none)
-        | .atomic =>
-          match put σ.st m with
-          | (st', .ok s) => some ({ σ with mem := st'.mem, q := st'.q }, .ret s m)
-          | (_, .tooLarge) => some (σ, .tooLarge)
-    | _ => none
+  | .alloc t m => cstepAlloc shape σ t m
+  | .allocFail t m =>
+    if m.len ≤ dataPageSize ∧ σ.q.messageOffset + m.len > dataPageSize then
+      match σ.ths t with
+      | .idle => some (σ, .failed)       -- alloc returned the error before touching the queue
+      | _ => none
+    else cstepAlloc shape σ t m
   | .write t =>
     match shape, σ.ths t with
     | .threeStep, .allocated m pg off =>
@@ -376,25 +426,52 @@ def cstep (shape : Shape) (σ : CSt) : Ev → Option (CSt × Out)
   | .persist t =>
     match shape, σ.ths t with
     | .threeStep, .written m pg off =>
-      some ({ mem := persistStores σ.mem σ.q pg off m.len 4, q := publish σ.q,
-              ths := setTh σ.ths t .idle, busy := σ.busy - 1 }, .ret (σ.q.appended + 1) m)
+      some ({ σ with mem := persistStores σ.mem σ.q pg off m.len 4, q := publish σ.q,
+                     ths := setTh σ.ths t .idle, busy := σ.busy - 1 }, .ret (σ.q.appended + 1) m)
     | _, _ => none
   | .get s => some (σ, .got (get σ.st s))
   | .ack s => let st := ack σ.st s; some ({ σ with mem := st.mem, q := st.q }, .none)
   | .gc =>
-    if σ.busy = 0 then let st := gc σ.st; some ({ σ with mem := st.mem, q := st.q }, .none)
-    else none
+    match σ.gc with
+    | .idle =>
+      if σ.busy = 0 then let st := gc σ.st; some ({ σ with mem := st.mem, q := st.q }, .none)
+      else none
+    | _ => none
   | .reopen =>
-    if σ.busy = 0 then let st := reopen σ.st; some ({ σ with mem := st.mem, q := st.q }, .none)
-    else none
+    match σ.gc with
+    | .idle =>
+      if σ.busy = 0 then let st := reopen σ.st; some ({ σ with mem := st.mem, q := st.q }, .none)
+      else none
+    | _ => none
   | .crash =>
     let st := openQ σ.mem
-    some ({ mem := st.mem, q := st.q, ths := fun _ => .idle, busy := 0 }, .none)
+    some ({ mem := st.mem, q := st.q, ths := fun _ => .idle, busy := 0, gc := .idle }, .none)
   | .crashPut t m k =>
     match σ.ths t with
     | .idle =>
       let st := crashPut σ.st m k
-      some ({ mem := st.mem, q := st.q, ths := fun _ => .idle, busy := 0 }, .none)
+      some ({ mem := st.mem, q := st.q, ths := fun _ => .idle, busy := 0, gc := .idle }, .none)
+    | _ => none
+  | .gcSnap =>
+    match σ.gc with
+    | .idle =>
+      if σ.q.acked < 0 then some (σ, .none)                  -- `if ackSeq < 0 { return }`
+      else some ({ σ with gc := .snapped σ.q.acked }, .none)
+    | _ => none
+  | .gcRead =>
+    match σ.gc with
+    | .snapped a =>
+      if a.toNat / indexItemsPerPage ∉ σ.mem.indexLive then some ({ σ with gc := .idle }, .none)  -- `if !ok { return }`
+      else some ({ σ with gc := .bounded a (entry σ.mem a.toNat).pg }, .none)
+    | _ => none
+  | .gcTruncData =>
+    match σ.gc with
+    | .bounded a b => some ({ σ with mem := truncateData σ.mem b, gc := .truncated a }, .none)
+    | _ => none
+  | .gcTruncIndex =>
+    match σ.gc with
+    | .truncated a =>
+      some ({ σ with mem := truncateIndex σ.mem (a.toNat / indexItemsPerPage), gc := .idle }, .none)
     | _ => none
 
 /-- run a schedule; `none` if some event was not enabled -/
